@@ -1,33 +1,40 @@
 /-
-Model of `utils/queue/in_memory_delayed_priority_queue.go` (`DelayedPriorityQueue`) as a labelled
+Model of `utils/queue/in_memory_delayed_priority_queue.go` (`DelayedPriorityQueue`) AFTER the repairs
+F10a (hand-off decided under the queue mutex) and F10b (Enqueue serves waiters first), as a labelled
 transition system at critical-section granularity.  Core Lean only.
 
 Threads and their steps (`Label`):
 * environment          `tick d`     the clock moves forward by `d` ns (timers may fire late: a due
                                      timer is merely *enabled*, the schedule decides when it fires);
 * enqueuer (new)       `enq p ttl`  `NewRequest` (timestamp = now) + the locked section of `Enqueue`:
-                                     `ensureWindowIsUpdated`; take a slot | reject (full) | push + count++;
+                                     `ensureWindowIsUpdated`; `processQueueItems` (requests already waiting
+                                     are served first); take a slot | reject (full) | push + count++;
                                      then UNLOCK.  A pushed request is now in the *gap* between the
                                      unlock and the `select` (hook point `dpq.unlocked-before-park`);
-* enqueuer r           `park r`     r enters `select { <-doneCh ; <-clock.After(ttl) }`
+* enqueuer r           `park r`     r enters `select { <-doneCh ; <-clock.After(ttl) }`: if a hand-off is
+                                     already buffered in doneCh it is taken at once, else r blocks
                                      (deadline = now + ttl, the timer is created here);
 * TTL timer of r       `expire r`   enabled when r is parked and its deadline ≤ now: r leaves the
-                                     select through the TTL case (it is NOT removed from the heap);
-* enqueuer r           `finish r`   woken r re-takes the mutex, `requestCounts[prio]--`, returns;
+                                     select through the TTL case (it stays in the heap, not yet `expired`);
+* enqueuer r           `finish r`   woken r re-takes the mutex, `requestCounts[prio]--`; in the TTL case it
+                                     re-checks doneCh (a hand-off that arrived meanwhile wins: true), else
+                                     sets `expired` and returns false;
 * roll-over goroutine  `roll`       enabled when its timer (window end at the time it was armed) is due:
                                      locked: `ensureWindowIsUpdated`; `processQueueItems`: while the heap
-                                     is non-empty and counter < quota: pop a minimum; NON-BLOCKING send on
-                                     its doneCh — MODELLED Go semantics: succeeds iff the target is parked
-                                     in `select`; success: counter++; failure: the request is dropped from
-                                     the heap and never retried.  Re-arming the timer (`After(windowEnd-now)`)
-                                     is merged into this step.
+                                     is non-empty and counter < quota: pop a minimum; skip it if `expired`,
+                                     else send on its doneCh (capacity 1, each request is popped once: the
+                                     send never blocks and does not depend on the waiter having parked),
+                                     counter++.  Re-arming the timer is merged into this step.
 
 Go fields ↦ model: `currentWindowEndTime` = `(widx+1)*win` (`updatedEnd.After(currentEnd)` ⇔
 `now/win > widx` for `win > 0`); `currentWindowCounter` = `counter`; `queue` = `heap` (request ids
 in insertion order; `container/heap` is abstracted to "pop returns a minimum for `Less`": priority,
 then timestamp; among exact ties the model takes the earliest pushed — the correspondence check
 keeps timestamps distinct); `requestCounts` is derived: number of requests per priority whose phase
-is `waiting` (pushed and not yet finished).  Request ids are positions in `reqs` (arrival order).
+is `waiting` (pushed and not yet finished); `Request.expired` ⇔ phase `retF`; "doneCh holds a
+hand-off" ⇔ phase `gapDone` / `wokeDone` / `wokeTTLDone`.  Request ids are positions in `reqs`.
+A popped request is handed off iff its phase is `eligible` (gap, parked, wokeTTL); on reachable
+states every popped request is eligible or `retF`, exactly the code's `if req.expired { continue }`.
 -/
 namespace LunarVerif.C10
 
@@ -40,23 +47,32 @@ deriving Repr, DecidableEq
 inductive Phase
   | passed            -- took a slot at once (Enqueue returned true)
   | full              -- rejected: queue full (Enqueue returned false)
-  | gap               -- pushed, mutex released, not yet in `select`
+  | gap               -- pushed, mutex released, not yet in `select`, no hand-off yet
+  | gapDone           -- pushed, not yet in `select`, hand-off already buffered in doneCh
   | parked (dl : Nat) -- blocked in `select`, TTL timer due at `dl`
-  | wokeDone          -- received the hand-off, has not yet decremented its count
-  | wokeTTL           -- TTL case taken, has not yet decremented its count
+  | wokeDone          -- has the hand-off, has not yet decremented its count
+  | wokeTTL           -- TTL case taken, has not yet re-taken the mutex, no hand-off yet
+  | wokeTTLDone       -- TTL case taken, a hand-off arrived before it re-took the mutex
   | retT              -- returned true after waiting
   | retF              -- returned false after its TTL
 deriving Repr, DecidableEq
 
 /-- Counted in `requestCounts` (pushed and not yet finished). -/
 def Phase.waiting : Phase → Bool
-  | .gap | .parked _ | .wokeDone | .wokeTTL => true
+  | .gap | .gapDone | .parked _ | .wokeDone | .wokeTTL | .wokeTTLDone => true
   | _ => false
 
-/-- Still waiting for its turn. -/
-def Phase.live : Phase → Bool
-  | .gap | .parked _ => true
+/-- Still waiting for its turn: pushed, not handed off, not yet marked expired. -/
+def Phase.eligible : Phase → Bool
+  | .gap | .parked _ | .wokeTTL => true
   | _ => false
+
+/-- Effect of the hand-off (send on the buffered doneCh) on the receiver's phase. -/
+def Phase.handoff : Phase → Phase
+  | .gap => .gapDone
+  | .parked _ => .wokeDone
+  | .wokeTTL => .wokeTTLDone
+  | ph => ph
 
 def Phase.isParked : Phase → Bool
   | .parked _ => true
@@ -88,7 +104,7 @@ deriving Repr, DecidableEq
 /-- Observable events (what a harness around the real queue sees). -/
 inductive Ev
   | tick (d : Nat)
-  | enq (prio ttl : Nat) (res : EnqRes)
+  | enq (prio ttl : Nat) (res : EnqRes) (rel : List Nat)  -- rel: waiters served by this Enqueue
   | park (r : Nat)
   | roll (rel : List Nat)          -- requests handed off by this roll-over, in pop order
   | expire (r : Nat)
@@ -149,12 +165,12 @@ def rollLoop (cfg : Cfg) : Nat → Loop → Loop
       match popMin x.reqs x.heap with
       | none => x
       | some (r, heap') =>
-        if (phaseOf x.reqs r).isParked then
-          -- the send finds r blocked in select: hand-off
-          rollLoop cfg n { heap := heap', reqs := setPhase x.reqs r .wokeDone,
+        if (phaseOf x.reqs r).eligible then
+          -- buffered send: the hand-off is decided here, under the mutex
+          rollLoop cfg n { heap := heap', reqs := setPhase x.reqs r (phaseOf x.reqs r).handoff,
                            counter := x.counter + 1, rel := x.rel ++ [r] }
         else
-          -- `default:` branch — r is not (or no longer) in select: dropped, never retried
+          -- `if req.expired { continue }`
           rollLoop cfg n { x with heap := heap' }
     else x
 
@@ -163,18 +179,22 @@ def step (cfg : Cfg) (s : State) : Label → Option (State × Ev)
   | .tick d => some ({ s with now := s.now + d }, .tick d)
   | .enq prio ttl =>
     let (w, c) := windowUpdate cfg s.now s.widx s.counter
+    let l := rollLoop cfg s.heap.length ⟨s.heap, s.reqs, c, []⟩
     let mk (ph : Phase) : Req := ⟨prio, s.now, ttl, ph⟩
-    if c < cfg.quota then
-      some ({ s with widx := w, counter := c + 1, reqs := s.reqs ++ [mk .passed] }, .enq prio ttl .pass)
-    else if cfg.size ≤ waitingCount s.reqs then
-      some ({ s with widx := w, counter := c, reqs := s.reqs ++ [mk .full] }, .enq prio ttl .full)
+    if l.counter < cfg.quota then
+      some ({ s with widx := w, counter := l.counter + 1, heap := l.heap, reqs := l.reqs ++ [mk .passed] },
+            .enq prio ttl .pass l.rel)
+    else if cfg.size ≤ waitingCount l.reqs then
+      some ({ s with widx := w, counter := l.counter, heap := l.heap, reqs := l.reqs ++ [mk .full] },
+            .enq prio ttl .full l.rel)
     else
-      some ({ s with widx := w, counter := c, heap := s.heap ++ [s.reqs.length],
-                     reqs := s.reqs ++ [mk .gap] }, .enq prio ttl .push)
+      some ({ s with widx := w, counter := l.counter, heap := l.heap ++ [l.reqs.length],
+                     reqs := l.reqs ++ [mk .gap] }, .enq prio ttl .push l.rel)
   | .park r =>
-    if phaseOf s.reqs r = .gap then
-      some ({ s with reqs := setPhase s.reqs r (.parked (s.now + (getReq s.reqs r).ttl)) }, .park r)
-    else none
+    match phaseOf s.reqs r with
+    | .gap => some ({ s with reqs := setPhase s.reqs r (.parked (s.now + (getReq s.reqs r).ttl)) }, .park r)
+    | .gapDone => some ({ s with reqs := setPhase s.reqs r .wokeDone }, .park r)
+    | _ => none
   | .expire r =>
     match phaseOf s.reqs r with
     | .parked dl =>
@@ -183,6 +203,7 @@ def step (cfg : Cfg) (s : State) : Label → Option (State × Ev)
   | .finish r =>
     match phaseOf s.reqs r with
     | .wokeDone => some ({ s with reqs := setPhase s.reqs r .retT }, .finish r true)
+    | .wokeTTLDone => some ({ s with reqs := setPhase s.reqs r .retT }, .finish r true)
     | .wokeTTL => some ({ s with reqs := setPhase s.reqs r .retF }, .finish r false)
     | _ => none
   | .roll =>
